@@ -422,8 +422,13 @@ func scalarToHeader(a interface{}) (hdr *storage.Header, newAlloc bool) {
 	case Memory:
 		// a scalar handed over as a tensor is an operand like any other: the kernels may write into the header they are
 		// given (the one-element special cases do), so they get a copy of its bytes, never its memory
-		src := storage.FromMemory(at.Uintptr(), at.MemSize())
-		raw = scalarPool(at.MemSize()).Get().([]byte)
+		size := at.MemSize()
+		if t, ok := a.(Tensor); ok && uintptr(t.Dtype().Size()) < size {
+			// a scalar-shaped view may sit in a wider storage window (p[2:5:3]): the scalar is its first element
+			size = uintptr(t.Dtype().Size())
+		}
+		src := storage.FromMemory(at.Uintptr(), size)
+		raw = scalarPool(size).Get().([]byte)
 		copy(raw, src)
 		hdr = borrowHeader()
 		hdr.Raw = raw
